@@ -75,6 +75,19 @@ def sp_old(ex, e, st):
     return ex.ev(e.args[0], view)
 
 
+def sp_before_loop(ex, e, st):
+    pre = getattr(ex, 'loop_pre_state', None)
+    if pre is None:
+        raise OutOfSubset('before_loop() outside a loop invariant')
+    view = State()
+    view.env = dict(st.env)
+    view.env.update(pre.env)
+    view.heap = pre.heap
+    view.pc = st.pc
+    view.alloc = pre.alloc
+    return ex.ev(e.args[0], view)
+
+
 def sp_implies(ex, e, st):
     a = ex.truthy(st, ex.ev(e.args[0], st))
     b = ex.truthy(st, ex.ev(e.args[1], st))
@@ -215,7 +228,7 @@ def sp_isinst_any(ex, e, st):
     return Val(mk_b(z3.Or(*alts) if alts else z3.BoolVal(False)), 'bool')
 
 
-SPEC_FUNCS = {'hashable': sp_hashable, 'heapobj': sp_heapobj, 'isinst_any': sp_isinst_any, 'old': sp_old, 'implies': sp_implies, 'iff': sp_iff, 'forall': sp_forall, 'exists': sp_exists,
+SPEC_FUNCS = {'before_loop': sp_before_loop, 'hashable': sp_hashable, 'heapobj': sp_heapobj, 'isinst_any': sp_isinst_any, 'old': sp_old, 'implies': sp_implies, 'iff': sp_iff, 'forall': sp_forall, 'exists': sp_exists,
               'forall_v': sp_forall_v, 'fresh': sp_fresh, 'typeis': sp_typeis, 'exact': sp_exact,
               'seq': sp_seq, 'keys': sp_keys, 'haskey': sp_haskey, 'dget': sp_dget, 'func': sp_func,
               'as_': sp_as, 'code': sp_charcode}
@@ -359,6 +372,9 @@ def b_int(ex, e, st):
     digits10 = z3.InRe(s_, z3.Loop(z3.Range('0', '9'), 1, 4300))
     st.assume(z3.Implies(z3.And(base == 10, digits10), ok(s_, base)))
     st.assume(z3.Implies(z3.And(base == 10, digits10), val(s_, base) >= 0))
+    st.assume(z3.Implies(z3.And(base == 10, z3.InRe(s_, z3.Plus(z3.Range('0', '9')))), val(s_, base) >= 0))
+    # a single decimal digit denotes its digit value
+    st.assume(z3.Implies(z3.And(base == 10, z3.Length(s_) == 1, digits10), val(s_, base) == z3.StrToCode(s_) - 48))
     ex.raise_if(st, z3.Not(ok(s_, base)), 'ValueError', 'safe/int-parse', e)
     return Val(mk_i(val(s_, base)), 'int')
 
@@ -452,6 +468,14 @@ def b_id(ex, e, st):
     return Val(mk_i(f(v.t)), 'int')
 
 
+def b_hash(ex, e, st):
+    used('hash: raises TypeError exactly for list/dict/set objects and for tuples that contain one')
+    v = ex.ev(e.args[0], st)
+    ex.raise_if(st, z3.Not(hash_ok(v.t)), 'TypeError', 'safe/hash', e)
+    f = z3.Function('py_hash', V, z3.IntSort())
+    return Val(mk_i(f(v.t)), 'int')
+
+
 def b_type(ex, e, st):
     v = ex.ev(e.args[0], st)
     f = z3.Function('py_type', V, V)
@@ -530,7 +554,7 @@ def b_next(ex, e, st):
     return apply_contract(ex, REG.externs[key], None, st.env.get('self'), args[1:], {}, e, st, pnames=None, extra_env={'callee': args[0]})
 
 
-BUILTIN_FUNCS = {'sorted': b_sorted, 'next': b_next, 'len': b_len, 'isinstance': b_isinstance, 'ord': b_ord, 'chr': b_chr, 'int': b_int, 'str': b_str,
+BUILTIN_FUNCS = {'hash': b_hash, 'sorted': b_sorted, 'next': b_next, 'len': b_len, 'isinstance': b_isinstance, 'ord': b_ord, 'chr': b_chr, 'int': b_int, 'str': b_str,
                  'bool': b_bool, 'list': b_list, 'tuple': b_tuple, 'dict': b_dict, 'getattr': b_getattr,
                  'hasattr': b_hasattr, 'max': b_max, 'min': b_min, 'id': b_id, 'type': b_type, 'repr': b_repr}
 
